@@ -1,6 +1,7 @@
 (* Correspondence check for C08: the real codec functions (replica placement, TTL, volume id,
    file id, ParsePath, super block, index entry, offset) on enumerated, random and malformed
-   inputs. *)
+   inputs.  Known findings: 0 = file id / path with needle key 0 (trig_key0), 1 = TTL integer
+   that is not an encoding (trig_ttl_u32); both triggers are per case and exact (props/C08.v). *)
 From Coq Require Import List NArith ZArith Bool.
 From Coq Require Export Uint63.   (* exported: cases.v uses %uint63 literals *)
 From SW Require Export base.Verdict model.Needle model.Codecs.
@@ -39,17 +40,24 @@ Inductive case :=
 | KFidEnc (vid key cookie : N) (impl_str : list N) (back : option (N * N * N))
 (* Needle.ParsePath(s): id, cookie *)
 | KPath (s : list N) (impl : option (N * N))
+(* formatNeedleIdCookie(key, cookie) [++ "_" ++ decimal delta] and Needle.ParsePath of it *)
+| KPathEnc (key cookie : N) (delta : option N) (impl_str : list N) (back : option (N * N))
+(* LoadTTLFromUint32(x) for an arbitrary integer, and ToUint32 of the result *)
+| KTtlU32 (x : N) (back : ttl) (re : N)
 (* SuperBlock.Bytes(), BlockSize(), and ReadSuperBlock of the file holding those bytes *)
 (* [pbres]: protobuf oracle value for the extra bytes of s: Marshal(Unmarshal(extra)), None on error *)
 | KSb (s : super_block) (impl_bytes : list N) (impl_block_size : N) (pbres : option (list N))
       (impl_read : option super_block)
 (* ReadSuperBlock of an arbitrary file; [cand] = the bytes of the file from offset 8 that the
-   header's extra size designates (clipped at the end of the file), [pbres] the oracle value for them *)
+   header's extra size designates (clipped at the end of the file), [pbres] the oracle value for them;
+   [rebytes] = Bytes() of the super block read, [pbres2] the oracle value for ITS extra,
+   [reread] = ReadSuperBlock of a file holding rebytes *)
 | KSbRead (file : list N) (cand : list N) (pbres : option (list N)) (impl_read : option super_block)
-(* needle_map.ToBytes(key, offset, size) and idx.IdxFileEntry of it *)
-| KIdx (key off : N) (size : Z) (impl_bytes : list N) (back : N * N * Z)
+          (rebytes : list N) (pbres2 : option (list N)) (reread : option super_block)
+(* needle_map.ToBytes(key, offset, size) and idx.IdxFileEntry of it; osz = types.OffsetSize of the build *)
+| KIdx (osz key off : N) (size : Z) (impl_bytes : list N) (back : N * N * Z)
 (* types.ToOffset(actual) and ToActualOffset of it *)
-| KOff (actual : N) (impl_off impl_back : N).
+| KOff (osz actual : N) (impl_off impl_back : N).
 
 (* ---------- equality helpers ---------- *)
 Definition opt_eqb {A} (f : A -> A -> bool) (a b : option A) : bool :=
@@ -185,8 +193,8 @@ Definition check (c : case) : outcome :=
          o_nontrivial := is_some impl |}
   | KFidEnc vid key cookie istr back =>
       {| o_corr := bytes_eqb (fid_string vid key cookie) istr && opt_eqb triple_eqb (parse_file_id istr) back;
-         o_prop := if key =? 0 then true else opt_eqb triple_eqb back (Some (vid, key, cookie));
-         o_trig := None;
+         o_prop := opt_eqb triple_eqb back (Some (vid, key, cookie));
+         o_trig := if trig_key0 key then Some 0 else None;
          o_nontrivial := negb (key =? 0) |}
   | KPath s impl =>
       {| o_corr := opt_eqb pair_eqb (parse_path s) impl;
@@ -205,16 +213,35 @@ Definition check (c : case) : outcome :=
                    end;
          o_trig := None;
          o_nontrivial := is_some impl |}
+  | KPathEnc key cookie delta istr back =>
+      {| o_corr := bytes_eqb (format_key_cookie key cookie ++ match delta with Some d => 95 :: itoa d | None => [] end) istr
+                   && opt_eqb pair_eqb (parse_path istr) back;
+         o_prop := opt_eqb pair_eqb back
+                     (Some ((key + match delta with Some d => d | None => 0 end) mod 18446744073709551616, cookie));
+         o_trig := if trig_key0 key then Some 0 else None;
+         o_nontrivial := negb (key =? 0) |}
+  | KTtlU32 x back re =>
+      {| o_corr := ttl_pair_eqb (load_ttl_u32 x) back && (ttl_to_u32 back =? re);
+         (* an integer is decoded only if it is the encoding of the TTL returned *)
+         o_prop := re =? x;
+         o_trig := if trig_ttl_u32 x then Some 1 else None;
+         o_nontrivial := negb (x =? 0) |}
   | KSb s ibytes ibs pbres iread =>
       let pb := fun b => if bytes_eqb b (sb_extra s) then pbres else None in
-      {| o_corr := bytes_eqb (sb_bytes s) ibytes && (sb_block_size s =? ibs)
+      {| o_corr := opt_eqb bytes_eqb (sb_bytes_checked s) (Some ibytes) && (sb_block_size s =? ibs)
                    && opt_eqb sb_eqb (sb_read pb ibytes) iread;
          o_prop := opt_eqb sb_eqb iread (Some s);
          o_trig := None;
          o_nontrivial := true |}
-  | KSbRead file cand pbres iread =>
+  | KSbRead file cand pbres iread rebytes pbres2 reread =>
       let pb := fun b => if bytes_eqb b cand then pbres else None in
-      {| o_corr := opt_eqb sb_eqb (sb_read pb file) iread;
+      {| o_corr := opt_eqb sb_eqb (sb_read pb file) iread
+                   && match iread with
+                      | Some s =>
+                          bytes_eqb (sb_bytes s) rebytes
+                          && opt_eqb sb_eqb (sb_read (fun b => if bytes_eqb b (sb_extra s) then pbres2 else None) rebytes) reread
+                      | None => (len rebytes =? 0) && negb (is_some reread)
+                      end;
          (* an accepted header is the encoding of the super block returned; the extra is what
             protobuf decodes from exactly the designated bytes of the file *)
          o_prop := match iread with
@@ -224,20 +251,28 @@ Definition check (c : case) : outcome :=
                        && (if size =? 0 then len (sb_extra s) =? 0
                            else (len cand =? size) && bytes_eqb cand (takeN size (dropN 8 file))
                                 && opt_eqb bytes_eqb pbres (Some (sb_extra s)))
+                       (* the value read, written again, reads back as itself *)
+                       && opt_eqb sb_eqb reread (Some s)
                    | None => true
                    end;
          o_trig := None;
          o_nontrivial := is_some iread |}
-  | KIdx key off size ibytes back =>
-      {| o_corr := bytes_eqb (idx_bytes key off size) ibytes && idx_eqb (idx_parse ibytes) back;
-         o_prop := idx_eqb back (key, off, size) && (len ibytes =? 16);
+  | KIdx osz key off size ibytes back =>
+      {| o_corr := bytes_eqb (idx_bytes_w osz key off size) ibytes && idx_eqb (idx_parse_w osz ibytes) back
+                   && ((osz =? 4) || (osz =? 5))
+                   && (if osz =? 4 then bytes_eqb (idx_bytes key off size) ibytes && idx_eqb (idx_parse ibytes) back else true);
+         o_prop := idx_eqb back (key, off, size) && (len ibytes =? 12 + osz);
          o_trig := None;
          o_nontrivial := true |}
-  | KOff actual ioff iback =>
-      {| o_corr := (to_offset actual =? ioff) && (to_actual_offset ioff =? iback);
-         o_prop := if (actual mod 8 =? 0) && (actual <? 34359738368) then iback =? actual else true;
+  | KOff osz actual ioff iback =>
+      {| o_corr := (to_offset_w osz actual =? ioff) && (to_actual_offset ioff =? iback)
+                   && ((osz =? 4) || (osz =? 5))
+                   && (if osz =? 4 then to_offset actual =? ioff else true);
+         (* multiples of 8 below MaxPossibleVolumeSize (8 x 2^32, 8 x 2^40 with 5 bytes) come back *)
+         o_prop := if (actual mod 8 =? 0) && (actual <? (if osz =? 5 then 8796093022208 else 34359738368))
+                   then iback =? actual else true;
          o_trig := None;
-         o_nontrivial := true |}
+         o_nontrivial := (actual mod 8 =? 0) && (actual <? (if osz =? 5 then 8796093022208 else 34359738368)) |}
   end.
 
 Definition summarize_cases (l : list case) : summary := summarize check l.
